@@ -442,6 +442,14 @@ class Run:
         self.classes = set()
         self.nontrivial = False
         self.ctype = spec.get("ctype") or "plain"
+        if self.ctype == "np":
+            # fixed-width numpy integers wrap silently on overflow (numpy's arithmetic on the caller's numbers, not the
+            # library's): integers are handed over as np.int64 only when no intermediate of the tree can leave 2^53
+            try:
+                if not static_scale(spec["tree"]) < 2.0 ** 53:
+                    self.ctype = "npfloat"
+            except OverflowError:
+                self.ctype = "npfloat"
         self.spec_s = "spin=%r labels=%r ctype=%s tree=%r" % (self.spin, self.labels, self.ctype, spec["tree"])
         if self.ctype != "plain":
             self.classes.add("ctype=" + self.ctype)
